@@ -22,6 +22,7 @@ def specs(tier):
     for start in (0.0, 1.0):
         for dt, n in ((1.0, 4), (0.5, 4), (0.25, 5), (0.1, 5)):
             out.append((start, dt, n))
+    out += [(0.5, 1.0, 4), (0.25, 0.5, 4), (1.25, 0.1, 5)]          # start times that are not multiples of dt
     if tier == "thorough":
         out += [(2.5, 0.5, 6), (0.0, 0.2, 6), (1.0, 0.05, 6), (0.0, 0.1, 10), (2.5, 0.25, 8)]
     return out
